@@ -1700,3 +1700,242 @@ func ruleC17KEKMatchedByRegion(c *Ctx) {
 	}
 	_ = n
 }
+
+// ---------------------------------------------------------------------------------------------
+// C19: handler published unconditionally; SDK results forwarded; one session factory
+
+// ruleC19HandlerPublished: "a second get-session is answered with an error response" — also after a first one that was
+// rejected. The only record of "a get-session has been seen" is s.handler, so the handler created for a get-session is
+// stored there on every path, whatever GetSession answers.
+func ruleC19HandlerPublished(c *Ctx) {
+	u := c.U2
+	c.rule("C19.handler-published", "in handleRequest (and the streamer methods it delegates to) every path from a NewHandler() call to return stores that handler into s.handler: the stream is marked initialised unconditionally", 1)
+	root := u.Method(pkgServer, "streamer", "handleRequest")
+	if root == nil {
+		c.unresolved("handleRequest", "(*streamer).handleRequest")
+		return
+	}
+	n := 0
+	seen := map[*ssa.Function]bool{}
+	var visit func(f *ssa.Function, depth int)
+	visit = func(f *ssa.Function, depth int) {
+		if f == nil || f.Blocks == nil || seen[f] || depth > 2 {
+			return
+		}
+		seen[f] = true
+		c.FuncsAnalysed[shortName(f)] = true
+		allInstrs(f, func(i ssa.Instruction) {
+			h := staticCallee(i)
+			if h == nil {
+				return
+			}
+			if h.Name() == "NewHandler" {
+				n++
+				c.CallSites++
+				cv := i.(ssa.Value)
+				ok, tr := mustPass(i.Block(), indexOf(i)+1, func(j ssa.Instruction) bool {
+					st, isS := j.(*ssa.Store)
+					if !isS {
+						return false
+					}
+					fa, isF := st.Addr.(*ssa.FieldAddr)
+					return isF && fieldName(fa.X.Type(), fa.Field) == "handler" && resolve(unwrapIface(st.Val)) == resolve(cv) || isF && fieldName(fa.X.Type(), fa.Field) == "handler" && resolve(st.Val) == resolve(cv)
+				}, nil)
+				if ok {
+					c.ok(shortName(f)+"/NewHandler-published", u.ipos(i), "s.handler = <new handler> on every path")
+				} else {
+					c.bad(shortName(f)+"/NewHandler-published", u.ipos(i), "the handler created for a get-session is not stored into s.handler on every path (e.g. only when GetSession succeeded): after a rejected get-session the stream counts as uninitialised again, so a second get-session is accepted instead of being answered with an error response", u.tracePositions(tr)...)
+				}
+				return
+			}
+			if h.Signature.Recv() != nil && typeIsNamed(h.Signature.Recv().Type(), pkgServer, "streamer") {
+				visit(h, depth+1)
+			}
+		})
+	}
+	visit(root, 0)
+	if n == 0 {
+		c.bad("handleRequest/NewHandler", u.pos(root.Pos()), "no NewHandler() call found on the get-session path")
+	}
+}
+
+// ruleC19SDKResultForwarded: "after a successful get-session, encrypt and decrypt behave exactly like the SDK": once the
+// SDK call has succeeded (err known nil) the handler answers with the success response built from the SDK's result —
+// no further condition turns an SDK success into an error response (the SDK legitimately returns a nil plaintext for
+// an empty payload).
+func ruleC19SDKResultForwarded(c *Ctx) {
+	u := c.U2
+	c.rule("C19.sdk-result-forwarded", "defaultHandler.Encrypt/Decrypt: on the edge where the session call's error is known nil no return carries an error response (newErrorResponse / a package-level error response): every SDK success is answered with the success response", 2)
+	for _, mn := range []string{"Encrypt", "Decrypt"} {
+		f := u.Method(pkgServer, "defaultHandler", mn)
+		if f == nil || f.Blocks == nil {
+			c.unresolved("defaultHandler."+mn, "method")
+			continue
+		}
+		c.FuncsAnalysed[shortName(f)] = true
+		var call *ssa.Call
+		allInstrs(f, func(i ssa.Instruction) {
+			if cv, ok := i.(*ssa.Call); ok && cv.Call.IsInvoke() && cv.Call.Method.Name() == mn {
+				call = cv
+			}
+		})
+		if call == nil {
+			c.bad("defaultHandler."+mn+"/sdk-call", u.pos(f.Pos()), "no session."+mn+" call found")
+			continue
+		}
+		var errv ssa.Value
+		for _, pr := range resultsOfType(call, isErrorType) {
+			errv = pr[0]
+		}
+		isErrResp := func(v ssa.Value) bool {
+			v = resolve(v)
+			if ld, ok := v.(*ssa.UnOp); ok {
+				if g, isG := ld.X.(*ssa.Global); isG {
+					return errorResponseGlobal(u, g)
+				}
+			}
+			if cv, ok := v.(*ssa.Call); ok {
+				if g := staticCallee(cv); g != nil && g.Name() == "newErrorResponse" {
+					return true
+				}
+			}
+			return false
+		}
+		n := 0
+		for _, r := range returnsOf(f) {
+			if !reaches(call, r) || errv == nil || !knownNil(errv, r.Block()) {
+				continue
+			}
+			n++
+			c.CallSites++
+			var bad func(v ssa.Value, d int) bool
+			bad = func(v ssa.Value, d int) bool {
+				if isErrResp(v) || isNilValue(v) {
+					return true
+				}
+				if phi, ok := resolve(v).(*ssa.Phi); ok && d < 3 {
+					for _, e := range phi.Edges {
+						if bad(e, d+1) {
+							return true
+						}
+					}
+				}
+				return false
+			}
+			c.check(!bad(returnedValue(r, 0), 0), "defaultHandler."+mn+"/success-reply", u.ipos(r), "SDK success answered with the success response", "after the SDK's "+mn+" succeeded the handler can still answer with an error response (or nothing): the sidecar no longer behaves like the SDK — e.g. the record of an empty payload, which the SDK decrypts to a nil slice, is refused")
+		}
+		if n == 0 {
+			c.bad("defaultHandler."+mn+"/success-reply", u.pos(f.Pos()), "no return on the err == nil edge of the SDK call")
+		}
+	}
+}
+
+// ruleC19OneSessionFactory: all streams of the sidecar share one SessionFactory (and with it one metastore handle and
+// one set of key caches), built when the server is constructed. A factory built on the request path — lazily, per
+// stream, unsynchronised — gives concurrent first streams factories of their own; in memory-metastore mode the records
+// of the losers are undecryptable on every later stream.
+func ruleC19OneSessionFactory(c *Ctx) {
+	u := c.U2
+	c.rule("C19.one-session-factory", "appencryption.NewSessionFactory is not reachable (resolved call graph, interface calls to all implementations) from streamer.Stream or any requestHandler method, unless the call sits in a closure handed to (*sync.Once).Do: the factory is built once, at server construction", 1)
+	cg := newCallGraph(u)
+	var starts []*ssa.Function
+	if f := u.Method(pkgServer, "streamer", "Stream"); f != nil {
+		starts = append(starts, f)
+	}
+	for _, mn := range []string{"GetSession", "Encrypt", "Decrypt", "Close"} {
+		if f := u.Method(pkgServer, "defaultHandler", mn); f != nil {
+			starts = append(starts, f)
+		}
+	}
+	if len(starts) < 2 {
+		c.unresolved("server entry points", "streamer.Stream / defaultHandler methods")
+		return
+	}
+	bad := ""
+	var via *cgEdge
+	for _, s := range starts {
+		for g, e := range cg.reachableFrom(s) {
+			if funcFullName(g) != "github.com/godaddy/asherah/go/appencryption.NewSessionFactory" || e == nil || e.From == nil {
+				continue
+			}
+			// exempt: inside a closure passed to sync.Once.Do
+			once := false
+			if e.From.Parent() != nil {
+				for _, mc := range makeClosuresOf(e.From) {
+					for _, r := range *mc.Referrers() {
+						if cv, ok := r.(*ssa.Call); ok {
+							if h := staticCallee(cv); h != nil && funcFullName(h) == "(*sync.Once).Do" {
+								once = true
+							}
+						}
+					}
+				}
+			}
+			if !once {
+				bad = shortName(s)
+				via = e
+			}
+		}
+	}
+	c.CallSites++
+	if bad == "" {
+		c.ok("server/NewSessionFactory", "", "not reachable from the stream and handler entry points")
+	} else {
+		c.bad("server/NewSessionFactory", u.ipos(via.Site), "appencryption.NewSessionFactory is reachable from "+bad+" (called in "+shortName(via.From)+"): the session factory is built on the request path, so streams whose first get-session overlaps each build their own factory — with it their own key caches and, in memory mode, their own metastore — and records written through one cannot be read through another")
+	}
+}
+
+// ---------------------------------------------------------------------------------------------
+// C13.record-literals-complete
+
+// ruleC13RecordLiteralsComplete: wherever a metastore back end builds the record it hands to the SDK field by field
+// (a composite literal of EnvelopeKeyRecord), the literal carries every stored field — Revoked, Created, EncryptedKey,
+// ParentKeyMeta — each from its namesake in the decoded item. A conversion that forgets one (Revoked above all: it is
+// absent from freshly written items and only appears when an operator revokes a key) returns the zero value for ever.
+func ruleC13RecordLiteralsComplete(c *Ctx) {
+	u := c.U1
+	c.rule("C13.record-literals-complete", "every composite literal of appencryption.EnvelopeKeyRecord in the metastore back-end packages sets Revoked, Created, EncryptedKey and ParentKeyMeta, with Revoked and Created read from fields of the same name", 1)
+	need := []string{"Revoked", "Created", "EncryptedKey", "ParentKeyMeta"}
+	n := 0
+	for _, f := range u.RepoFuncs {
+		root := rootFunc(f)
+		if root.Pkg == nil || f.Blocks == nil {
+			continue
+		}
+		p := root.Pkg.Pkg.Path()
+		if p != pkgPersist && p != pkgDynV1 && p != pkgDynV2 {
+			continue
+		}
+		allInstrs(f, func(i ssa.Instruction) {
+			a, ok := i.(*ssa.Alloc)
+			if !ok || a.Comment != "complit" {
+				return
+			}
+			pt, isP := a.Type().Underlying().(*types.Pointer)
+			if !isP || !typeIsNamed(pt.Elem(), pkgApp, "EnvelopeKeyRecord") {
+				return
+			}
+			n++
+			c.CallSites++
+			c.FuncsAnalysed[shortName(f)] = true
+			fl := litFields(a)
+			var problems []string
+			for _, fld := range need {
+				v, set := fl[fld]
+				if !set {
+					problems = append(problems, fld+" is not set")
+					continue
+				}
+				if fld == "Revoked" || fld == "Created" {
+					if ap := trimAddr(accessPath(v)); !strings.HasSuffix(ap, "."+fld) {
+						problems = append(problems, fld+" is set from "+describeOperand(v)+", not from a ."+fld+" field")
+					}
+				}
+			}
+			c.check(len(problems) == 0, trimPkgDirs(shortName(f))+"/EnvelopeKeyRecord-literal", u.ipos(i), "carries Revoked, Created, EncryptedKey, ParentKeyMeta", "the record handed to the SDK is built without all stored fields ("+strings.Join(problems, "; ")+"): what Load returns is not what Store stored — a record whose Revoked flag was set in the table comes back as not revoked and the key stays in use")
+		})
+	}
+	if n == 0 {
+		c.bad("metastores/EnvelopeKeyRecord-literals", "", "no EnvelopeKeyRecord literal found in the back ends (aws-v2 decodeItem builds one)")
+	}
+}
